@@ -22,8 +22,7 @@ theorem taskIsBlocked_eq (s : State) (t : TaskId) : Gen.taskIsBlocked (view s t)
 
 theorem taskIsRunnable_eq (s : State) (t : TaskId) : Gen.taskIsRunnable (view s t) = isRunnable s t := by
   unfold Gen.taskIsRunnable isRunnable
-  simp only [taskIsBlocked_eq]
-  -- by cases, so that `not (a or b)`, early returns and nested ifs all go through
+  rw [taskIsBlocked_eq]
   cases isBlocked s t <;> cases hd : (s.tasks t).done <;> simp [view, hd]
 
 /-- what `task_from_handle` / `is_task_callback` read of the callback of a kernel handle
@@ -50,7 +49,7 @@ theorem taskFromHandle_eq (py : TaskId → Bool) (h : Handle) :
   cases h with
   | step t e => cases hp : py t <;> simp [cbView, hp, Gen.taskFromHandle, Gen.isTaskCallback, Gen.taskCallbackNames, taskFromHandle]
   | wakeup t f => cases hp : py t <;> simp [cbView, hp, Gen.taskFromHandle, Gen.isTaskCallback, Gen.taskCallbackNames, taskFromHandle]
-  | cb k => rfl
+  | cb k => simp [cbView, Gen.taskFromHandle, taskFromHandle]
   | otherBound t => cases hp : py t <;> simp [cbView, hp, Gen.taskFromHandle, Gen.isTaskCallback, Gen.taskCallbackNames, taskFromHandle]
 
 end Asynkit.GenEqC09
